@@ -89,9 +89,10 @@ impl Handler {
 	///
 	/// This starts the [`Job`] immediately if one with the Id doesn't exist, and stores a copy of
 	/// its handle and [`Id`] in this `Action` (and thus in the Watchexec instance, when the action
-	/// handler returns).
+	/// handler returns). A job created earlier in this same action counts as existing.
 	pub fn get_or_create_job(&mut self, id: Id, command: impl Fn() -> Arc<Command>) -> Job {
 		self.get_job(id)
+			.or_else(|| self.new.get(&id).map(|(job, _)| job.clone()))
 			.unwrap_or_else(|| self.create_job_with_id(id, command()))
 	}
 
